@@ -224,6 +224,8 @@ static inline %(T)s* vf_seq_%(G)s_back(struct vf_seq_%(G)s* s) { __CPROVER_asser
 static inline %(T)s* vf_seq_%(G)s_begin(struct vf_seq_%(G)s* s) { return s->d + s->h; }
 static inline %(T)s* vf_seq_%(G)s_end(struct vf_seq_%(G)s* s) { return s->d + s->h + s->n; }
 static inline void vf_seq_%(G)s_push_back(struct vf_seq_%(G)s* s, %(T)s v) { __CPROVER_assume(s->h + s->n < s->cap); s->d[s->h + s->n] = v; s->n++; }
+/* emplace_back(args..) of a class element: the new last slot, constructed in place by the caller (T__ctor(slot, args..)) */
+static inline %(T)s* vf_seq_%(G)s_emplace_slot(struct vf_seq_%(G)s* s) { __CPROVER_assume(s->h + s->n < s->cap); s->n++; return &s->d[s->h + s->n - 1]; }
 static inline void vf_seq_%(G)s_pop_front(struct vf_seq_%(G)s* s) { __CPROVER_assert(s->n > 0, "vf_seq pop_front on non-empty"); s->h++; s->n--; }
 static inline void vf_seq_%(G)s_pop_back(struct vf_seq_%(G)s* s) { __CPROVER_assert(s->n > 0, "vf_seq pop_back on non-empty"); s->n--; }
 static inline void vf_seq_%(G)s_clear(struct vf_seq_%(G)s* s) { s->n = 0; }
